@@ -91,8 +91,29 @@ def noraise_function(model, c, m, f, depth=0, seen=frozenset()):
             continue
         why = _raising_construct(model, c, m, f, n, depth, seen)
         if why:
+            if _interp_noraise(model, m, f):
+                return None
             return '%s (%s)' % (why, m.where(n))
     return None
+
+
+def _interp_noraise(model, m, f):
+    """Second opinion for a construct the syntactic judgement cannot clear: abstractly run the function on arbitrary arguments;
+    it is non-raising when every trace returns and none depends on an unmodelled construct."""
+    from ..absint import Interp, Func, Sym, Unmodelled
+    if not isinstance(f, ast.FunctionDef) or f.args.vararg or f.args.kwarg or sa.self_name(f) in ('self', 'cls') and m.parent(f) is not m.tree:
+        return False
+    key = (m.name, f.name)
+    cache = model.__dict__.setdefault('_interp_noraise', {})
+    if key not in cache:
+        try:
+            outs = Interp(model).run(lambda interp, st: interp.call(Func(m, f), [Sym(None, 'A%d' % i) for i in range(len(sa.params(f)))]))
+            cache[key] = bool(outs) and all(o.kind == 'return' and not o.imprecise for o in outs)
+        except (Unmodelled, AnalysisError, RecursionError):
+            cache[key] = False
+        except Exception:
+            cache[key] = False
+    return cache[key]
 
 
 def _raising_construct(model, c, m, f, n, depth, seen, caught=None):
@@ -289,6 +310,9 @@ def _r3(model, res, c, m, f, root):
     if fm is None:
         raise AnalysisError('from_message not found in %s (anchor vanished)' % em.name)
     site = '%s:from_message' % em.name
+    if _r3_table_interp(model, res, c, em, fm, site, singles):
+        _r3_constructions(model, res, em, singles, m, f, root)
+        return
     dicts = [n for n in walk_no_defs(fm) if isinstance(n, ast.Dict)]
     if len(dicts) != 1:
         # maybe a module-level table
@@ -349,6 +373,81 @@ def _r3(model, res, c, m, f, root):
     if why:
         res.violation('R3', '%s:may-raise' % site, em.where(fm),
                       'from_message is called inside parse()\'s exception handler and can itself raise: %s' % why, func='from_message')
+    _r3_constructions(model, res, em, singles, m, f, root)
+
+
+def _r3_table_interp(model, res, c, em, fm, site, singles):
+    """from_message decided on its own code: it is run on an arbitrary argument; the traces enumerate the table (one per key the
+    lookup can hit, plus the default).  Returns False when the function is not in a shape the interpreter follows precisely."""
+    from ..absint import Interp, Func, Sym, Err, Unmodelled
+    try:
+        outs = Interp(model).run(lambda interp, st: interp.call(Func(em, fm), [Sym(None, 'X')]))
+    except Unmodelled:
+        return False
+    except AnalysisError:
+        return False
+    if not outs or any(o.imprecise for o in outs):
+        return False
+    hits = {}
+    default = []
+    for o in outs:
+        key = None
+        for (t, alt, subj) in o.notes:
+            if ' hits' in t:
+                key = alt
+        if o.kind != 'return':
+            res.ob('R3', site, 'trace %s' % key, False, 'raises %r' % (o.value,))
+            res.violation('R3', '%s:may-raise' % site, em.where(fm),
+                          'from_message is called inside parse()\'s exception handler and can itself raise: %r' % (o.value,), func='from_message')
+            continue
+        if key is None:
+            return False
+        if key == '<default>':
+            default.append(o.value)
+        else:
+            try:
+                kv = ast.literal_eval(key)
+            except Exception:
+                return False
+            hits.setdefault(kv, []).append(o.value)
+    for kv, vals in sorted(hits.items(), key=lambda x: str(x[0])):
+        v = vals[0]
+        msg = v.message if isinstance(v, Err) else None
+        ok = len(vals) == 1 and isinstance(v, Err) and msg == kv and kv in NINE
+        res.ob('R3', site, 'table entry %r -> %r' % (kv, v), ok)
+        if not ok:
+            res.violation('R3', '%s:table-entry:%s' % (site, kv), em.where(fm),
+                          'error table entry %r maps to %r whose message is %r; key, singleton message and the canonical list must agree'
+                          % (kv, v, msg), func='from_message')
+    missing = [x for x in NINE if x not in hits]
+    res.ob('R3', site, 'table covers exactly the nine canonical codes', not missing, 'missing=%s' % missing)
+    if missing:
+        res.violation('R3', '%s:table-missing' % site, em.where(fm),
+                      'canonical code(s) %s missing from the table: such an error is reported as #ERROR!' % missing, func='from_message')
+    okd = bool(default) and all(isinstance(v, Err) and v.message == '#ERROR!' for v in default)
+    res.ob('R3', site, 'anything else maps to the #ERROR! singleton', okd, repr(default))
+    if not okd:
+        res.violation('R3', '%s:default' % site, em.where(fm),
+                      'from_message must look up str(<its argument>) and default to the #ERROR! singleton for everything else (default: %r)' % (default,),
+                      func='from_message')
+    # the lookup key is str(argument): with a key that is not a str (the raw exception object) nothing ever hits
+    keyed = False
+    for n in walk_no_defs(fm):
+        if isinstance(n, ast.Call) and sa.call_name(n) == 'str' and len(n.args) == 1 and isinstance(n.args[0], ast.Name) and n.args[0].id in sa.params(fm):
+            keyed = True
+    res.ob('R3', site, 'lookup key is str(<argument>)', keyed)
+    if not keyed:
+        res.violation('R3', '%s:default' % site, em.where(fm),
+                      'from_message must look up str(<its argument>) and default to the #ERROR! singleton for everything else', func='from_message')
+    why = noraise_function(model, c, em, fm, 0, frozenset())
+    res.ob('R3', site, 'from_message cannot raise', why is None, why)
+    if why:
+        res.violation('R3', '%s:may-raise' % site, em.where(fm),
+                      'from_message is called inside parse()\'s exception handler and can itself raise: %s' % why, func='from_message')
+    return True
+
+
+def _r3_constructions(model, res, em, singles, m, f, root):
     # (b) who may construct
     n_ctor = 0
     for mm in model.modules.values():
